@@ -14,11 +14,11 @@ from collections import Counter, defaultdict
 from sim import core
 from sim.jitsim import parent as P
 
-STRETCH_CLASSES = ["open:lock", "stat:lock", "stat:failed", "rename:tmp", "codegen:", "spawn-compile-end:obj", "spawn-link:so",
+STRETCH_CLASSES = ["open:lock", "stat:lock", "stat:failed", "replace:lock", "dlopen:so", "rename:tmp", "codegen:", "spawn-compile-end:obj", "spawn-link:so",
                    "spawn-link-end:so", "open:marker", "write:marker", "close:marker", "chdir:dir"]
 FAULT_KINDS = ["kill", "kill", "kill", "interrupt", "codegen-fail", "cc-fail", "cc-fail", "ld-fail",
                "marker-enospc", "lock-eacces", "kill-torn-link", "kill-torn-obj", "stall",
-               "torn-write-kill"]
+               "torn-write-kill", "load-fail"]
 PRE_KINDS_C15 = ["orphan-lock", "orphan-lock+torn-so", "stale-failed", "stale-failed+leftovers", "warm"]
 
 
@@ -161,6 +161,8 @@ def gen_scenario(seed, mode, thorough, golden):
         procs.append({"name": i, "arrive": round(rng.uniform(0, 3.0), 3) if spread else 0.0,
                       "requests": reqs})
     scn = {"seed": seed, "mode": mode, "procs": procs, "pre": [], "faults": [], "stretch": [], "late": []}
+    if rng.random() < 0.4:
+        scn["coarse_mtime"] = True  # a file system with 2 s time stamps
     for _ in range(rng.choice([0, 1, 1, 2])):
         scn["stretch"].append({"proc": "holder", "after": rng.choice(STRETCH_CLASSES),
                                "dur": round(rng.uniform(0.3, 1.5), 3)})
@@ -207,6 +209,8 @@ def gen_scenario(seed, mode, thorough, golden):
                 f["dur"] = round(rng.uniform(5, 60), 2)
         elif kind == "lock-eacces":
             f.update(proc=rng.choice(procs)["name"])
+        elif kind == "load-fail":
+            f.update(proc="holder" if c < 0.7 else rng.choice(procs)["name"])
         else:
             f.update(proc="holder")
             if kind == "marker-enospc":
@@ -239,7 +243,7 @@ def sweep_scenarios(golden):
                 s["sweep"] = f"{'pair' if with_waiter else 'solo'}/{kind}@{k}"
                 out.append(s)
         for kind in ("codegen-fail", "cc-fail", "ld-fail", "marker-enospc", "kill-torn-link",
-                     "kill-torn-obj", "torn-write-kill", "lock-eacces"):
+                     "kill-torn-obj", "torn-write-kill", "lock-eacces", "load-fail"):
             for variant in range(2):
                 s = copy.deepcopy(base)
                 f = {"kind": kind, "proc": 0 if kind == "lock-eacces" else "holder"}
@@ -330,6 +334,10 @@ def _transforms(scn):
         s = copy.deepcopy(scn)
         del s["pre"][i]
         yield f"drop pre {i}", s
+    if scn.get("coarse_mtime"):
+        s = copy.deepcopy(scn)
+        del s["coarse_mtime"]
+        yield "fine directory time stamps", s
     if len(scn["procs"]) > 1:
         for i in range(len(scn["procs"])):
             s = copy.deepcopy(scn)
